@@ -1,0 +1,14 @@
+//go:build verif
+
+package service
+
+import (
+	"github.com/metrico/qryn/reader/logql/logql_transpiler_v2/shared"
+	"github.com/metrico/qryn/reader/model"
+)
+
+// VerifC15ExportStreamsValue runs the unexported streaming encoder of log query responses
+// (QueryRangeService.exportStreamsValue) on a caller-supplied channel of entry batches.
+func VerifC15ExportStreamsValue(out chan []shared.LogEntry, res chan model.QueryRangeOutput) {
+	(&QueryRangeService{}).exportStreamsValue(out, res)
+}
